@@ -920,7 +920,7 @@ def r1112(ctx, R):
     n = C.reuse_obligations(
         ctx, R, lambda c, r: c01.r12(c, r), 'R11.12',
         select=lambda o: o.construct.startswith('_set_allocations:'))
-    R.count('R11.12', n, 4)
+    R.count('R11.12', n, 1)
 
 
 _run_c11b = run
